@@ -148,6 +148,21 @@ def r2(cx, rec):
             if 'PIECE_BLOCK_SIZE' in s and plen in s and any(plans and plans[0][3](y) for y in walk(ce, inl=False)):
                 okc = True
                 rec.site(B, sb, 'selector %s' % s[-110:])
+                # exact: the remainder is planned iff begin + BLOCK > piece length
+                from rules import C07
+                (cl, vl), (cr, vr) = C07.lin(ce[2]), C07.lin(ce[3])
+                blk = F.const_val('constants::PIECE_BLOCK_SIZE')
+                if cl is not None and cr is not None and vl and vr:
+                    if plen in (vr or ''):
+                        t = {'Gt': cl - cr, 'Ge': cl - cr + 1}.get(ce[1])
+                    else:
+                        t = {'Lt': cr - cl, 'Le': cr - cl + 1}.get(ce[1])
+                else:
+                    t = None
+                if True:
+                    rec.need(t == blk, 'plan-selector-threshold', B, sb,
+                             'the last block is recognised by `%s`: a block is planned short iff begin + %s > piece length, expected + %d '
+                             '(for some piece lengths the last request runs past the end of the piece, or a full block is cut)' % (s[-80:], t, blk))
     rec.need(okc, 'plan-selector', P, None, 'no comparison of begin + PIECE_BLOCK_SIZE with piece_length selects the last block')
     # the planner is fed the request's piece length
     for f, bb in C.callers(F, P.path):
